@@ -157,9 +157,24 @@ def dtMatch (v e : DT) : Bool := (v == .object && e == .str) || v == e
 /-- The pinned special case: *any* object array passes for a string tensor. -/
 def dtMatchLoose (v e : DT) : Bool := ((v == .object || v == .objmixed) && e == .str) || v == e
 
+/-- The Tensor branch of `check`, in the order the code evaluates it: first "is an ndarray whose
+    shape is `<=` the declared shape" (else `False`), only then the object/str special case, only then
+    the dtype-class identity. (A string-typed output must fail on a wrong shape *before* the special
+    case can accept it.) -/
+def checkTensor (e : DT) (s : Shape) (dt : DT) (sh : List Nat) : Bool :=
+  if !(shapeLe sh s) then false
+  else if (dt == .object || dt == .objmixed) && e == .str then dt == .object  -- all elements are str
+  else dt == e
+
+/-- The pinned Tensor branch: same order, but any object array passes for a string tensor. -/
+def checkTensorLoose (e : DT) (s : Shape) (dt : DT) (sh : List Nat) : Bool :=
+  if !(shapeLe sh s) then false
+  else if (dt == .object || dt == .objmixed) && e == .str then true
+  else dt == e
+
 /-- The fixed `check`, as a function of the declared type and the payload (recursion on the type). -/
 def checkRec : Ty → Payload → Bool
-  | .tensor e s, .arr dt sh _ => shapeLe sh s && dtMatch dt e
+  | .tensor e s, .arr dt sh _ => checkTensor e s dt sh
   | .tensor _ _, _ => false
   | .seq t, .list xs => xs.all fun x => x.type.sub t && checkRec t (PropValue.new t x.value).value
   | .seq _, _ => false
@@ -169,7 +184,7 @@ def checkRec : Ty → Payload → Bool
 
 /-- The pinned `check`: containers are only looked at one level deep. -/
 def checkShallow : Ty → Payload → Bool
-  | .tensor e s, .arr dt sh _ => shapeLe sh s && dtMatchLoose dt e
+  | .tensor e s, .arr dt sh _ => checkTensorLoose e s dt sh
   | .tensor _ _, _ => false
   | .seq t, .list xs => xs.all fun x => x.type.sub t
   | .seq _, _ => false
